@@ -86,11 +86,7 @@ func (d *decoder) decodeArray(v value, elemType reflect.Type, decodeElem decodeF
 	if n := d.readInt32(); n < 0 || n > 65535 {
 		v.setArray(array{})
 	} else {
-		a := makeArray(elemType, int(n))
-		for i := 0; i < int(n) && d.remain > 0; i++ {
-			decodeElem(d, a.index(i))
-		}
-		v.setArray(a)
+		d.decodeElements(v, elemType, decodeElem, int(n))
 	}
 }
 
@@ -98,12 +94,25 @@ func (d *decoder) decodeCompactArray(v value, elemType reflect.Type, decodeElem 
 	if n := d.readUnsignedVarInt(); n < 1 || n > 65535 {
 		v.setArray(array{})
 	} else {
-		a := makeArray(elemType, int(n-1))
-		for i := 0; i < int(n-1) && d.remain > 0; i++ {
-			decodeElem(d, a.index(i))
-		}
-		v.setArray(a)
+		d.decodeElements(v, elemType, decodeElem, int(n-1))
 	}
+}
+
+// decodeElements decodes the n declared elements of an array that are really present: an
+// element takes at least one byte, so no more elements are allocated than the message still
+// holds bytes, decoding stops at the end of the message or at the first error, and the array
+// keeps the elements that were decoded (not the declared number of zero values).
+func (d *decoder) decodeElements(v value, elemType reflect.Type, decodeElem decodeFunc, n int) {
+	if n > d.remain {
+		n = d.remain
+	}
+	a := makeArray(elemType, n)
+	i := 0
+	for i < n && d.remain > 0 && d.err == nil {
+		decodeElem(d, a.index(i))
+		i++
+	}
+	v.setArray(a.slice(i))
 }
 
 func (d *decoder) decodeRecordV0(v value) {
@@ -169,9 +178,22 @@ func (d *decoder) discard(n int) {
 }
 
 func (d *decoder) read(n int) []byte {
-	b := make([]byte, n)
-	n, err := io.ReadFull(d, b)
-	b = b[:n]
+	// the message cannot hold more than d.remain bytes: allocate for those only; a longer
+	// read ends, as before, with the error of running into the end of the message
+	size := n
+	if size > d.remain {
+		size = d.remain
+	}
+	b := make([]byte, size)
+	k, err := io.ReadFull(d, b)
+	b = b[:k]
+	if err == nil && size < n {
+		if k == 0 {
+			err = io.EOF
+		} else {
+			err = io.ErrUnexpectedEOF
+		}
+	}
 	d.setError(err)
 	return b
 }
